@@ -334,10 +334,36 @@ func (c *c14) resolve(st spec.HStep) ([]string, string) {
 					}
 				}
 			}
+			t := dayTime(day).AddDate(0, 0, int(c.rnd()%7)-3).Format("2006-01-02")
+			if c.rnd()%3 == 0 {
+				// digit patterns: the table is scanned as one packed digit string, so put a record right at a year
+				// boundary (last free days of December, first of January) and give it a target whose digits
+				// repeat the neighbouring year's (day-of-month 19..22, 01, 02, 10..12; month 01, 02, 10..12, 20xx)
+				yy := c.firstY + int(c.rnd()%uint64(c.lastY-c.firstY+1))
+				var cand time.Time
+				if c.rnd()%2 == 0 {
+					cand = time.Date(yy, 12, 31-int(c.rnd()%12), 0, 0, 0, 0, time.UTC)
+				} else {
+					cand = time.Date(yy, 1, 1+int(c.rnd()%3), 0, 0, 0, 0, time.UTC)
+				}
+				cd := cand.Format("2006-01-02")
+				if _, ok := c.m.recs[cd]; !ok {
+					day = cd
+					doms := []int{19, 20, 21, 22, 1, 2, 10, 11, 12}
+					mons := []time.Month{1, 2, 10, 11, 12, cand.Month()}
+					t = time.Date(cand.Year()+int(c.rnd()%2), mons[c.rnd()%uint64(len(mons))], doms[c.rnd()%uint64(len(doms))], 0, 0, 0, 0, time.UTC).Format("2006-01-02")
+					if c.rnd()%3 == 0 {
+						t = cd[:8] + fmt.Sprintf("%02d", doms[c.rnd()%uint64(len(doms))]) // same month, patterned day
+						if _, err := time.Parse("2006-01-02", t); err != nil {
+							t = cd
+						}
+					}
+					probesC["fix_add_digit_pattern_at_year_boundary"]++
+				}
+			}
 			if used[day] {
 				continue
 			}
-			t := dayTime(day).AddDate(0, 0, int(c.rnd()%7)-3).Format("2006-01-02")
 			seg(day, c.pickName(nNames), c.rnd()%3 == 0, t)
 			if day < maxDay {
 				probesC["fix_add_before_existing"]++
